@@ -370,7 +370,7 @@ func cmdCheck(args []string) {
 		*tier = "quick"
 	}
 	seed, _ := strconv.Atoi(os.Getenv("VERIF_SEED"))
-	timeout := 10
+	timeout := 20
 	if *tier == "thorough" {
 		timeout = 60
 		graceS = 20
